@@ -163,11 +163,14 @@ Dot == PT(".")
 BareNames == {"d1", "d2", "d3", "u", "sub", "cq", "host", "rp", "m", "t"}
 NId(n) == IF n \in BareNames THEN Id(n) ELSE QId(n)
 
+\* a leaf may carry a measurement name of its own (field nm: the source dictionary); what it requires depends on its database only
+LeafName(l) == IF "nm" \in DOMAIN l THEN l.nm ELSE MName
+NIdT(n) == IF n \in BareNames THEN IdT(n) ELSE QIdT(n)
 LeafToks(l) ==
-  CASE l.f = "m"        -> <<Id(MName)>>
-    [] l.f = "rp.m"     -> <<Id(RpName), Dot, IdT(MName)>>
-    [] l.f = "db.rp.m"  -> <<NId(l.db), Dot, IdT(RpName), Dot, IdT(MName)>>
-    [] l.f = "db..m"    -> <<NId(l.db), Dot, Dot, IdT(MName)>>
+  CASE l.f = "m"        -> <<NId(LeafName(l))>>
+    [] l.f = "rp.m"     -> <<Id(RpName), Dot, NIdT(LeafName(l))>>
+    [] l.f = "db.rp.m"  -> <<NId(l.db), Dot, IdT(RpName), Dot, NIdT(LeafName(l))>>
+    [] l.f = "db..m"    -> <<NId(l.db), Dot, Dot, NIdT(LeafName(l))>>
     [] l.f = "re"       -> <<Re("m.*")>>
     [] l.f = "rp.re"    -> <<Id(RpName), Dot, ReT("m.*")>>
     [] l.f = "db.rp.re" -> <<NId(l.db), Dot, IdT(RpName), Dot, ReT("m.*")>>
